@@ -5,11 +5,12 @@
         try: call(f)             -> Done  (state updated)
         except KeyError:         -> Requeue (pending.append(f), state unchanged)
         except Exception:        -> Failed (an error was filed; not re-queued)
-        state = hash(tuple(pending))
+        state = tuple(pending)
         if state in seen: file 'circular' for every pending field; break
         else: seen.add(state)
 
-   hash(tuple(...)) is taken injective (assumption A-hash): [seen] holds the lists. *)
+   [seen] holds the lists themselves, as the code does since be0af7a (it held their hashes before: -1 and -2 hash alike in
+   CPython, so a rotation of the queue was taken for a repeated state -- found by a seeding sub-agent, repaired). *)
 From Coq Require Import List Bool Arith Lia.
 From Cerb Require Import Values.
 Import ListNotations.
